@@ -498,6 +498,8 @@ def expand (s : Sys) (built : Bool) (fields : List String) : Option (List SysOp 
   | "P" :: dep :: text :: _ => some ([.call .tokenparser (parseDep text dep)], built)        -- pack: methods.py:52
   | "U" :: dep :: text :: _ => some ([.call .preprocessTokens (parseDep text dep)], built)   -- unpack/readlist: bits.py:1217
   | "D" :: dep :: text :: _ => some ([.call .create (parseDep text dep)], built)             -- Dtype(...): dtypes.py:323-337
+  | "N" :: dep :: text :: _ => some ([.call .create (parseDep text dep)], built)             -- cls(name=value), a.name = value,
+                                                                                             -- pack(name, value), Dtype.build: Dtype(name, length)
   | "A" :: dep :: text :: _ =>
     -- Array(Dtype(name, scale='auto'), values): the table is built on first use (array_.py:98-112)
     let pre := if built then [] else largestValuesLiterals.map fun t => SysOp.call .strToBitstore (plainCall t)
